@@ -249,7 +249,8 @@ pub fn run_session(mut src: Source, supported: Arc<BTreeSet<String>>, properties
         let mut st = MStore::new();
         for (n, m, val) in &observed {
           let origin = model.store.get(n).map(|b| b.origin.clone()).or_else(|| pre.get(n).map(|b| b.origin.clone())).unwrap_or_else(|| "resync".into());
-          st.insert(n.clone(), Binding { mutable: *m, v: val.clone(), origin });
+          let src = model.store.get(n).and_then(|b| b.src.clone()).or_else(|| pre.get(n).and_then(|b| b.src.clone()));
+          st.insert(n.clone(), Binding { mutable: *m, v: val.clone(), origin, src });
         }
         model.store = st;
         known_hits.push(v);
@@ -274,7 +275,10 @@ fn classify_ok_diffs(op: &Op, verdict: &Verdict, pre: &MStore, expected: &MStore
   };
   let exp_s = show_mstore(expected);
   let obs_s = show_store(observed);
-  // 1. another name changed
+  // 1. another name changed. Each changed name is explained or not by how it is related to the
+  // target in the model; an unexplained one is reported in preference to an explained one (which
+  // may be a recorded finding), so that a recorded finding never absorbs an unrelated change.
+  let mut explained: Option<Violation> = None;
   for d in diffs {
     if let Diff::Value(n, _, _) = d {
       if !tgt.contains(n) {
@@ -282,17 +286,29 @@ fn classify_ok_diffs(op: &Op, verdict: &Verdict, pre: &MStore, expected: &MStore
         let class = if immut { "immutable-changed" } else { "alias" };
         let t0 = tgt.get(0).cloned().unwrap_or_default();
         let (a, b) = (origin_tag(pre, n), origin_tag(pre, &t0));
-        let via = if a.ends_with("<-field") || b.ends_with("<-field") { "via-field-access" }
-          else if a.ends_with("<-tuple-elem") || b.ends_with("<-tuple-elem") { "via-tuple-element-access" }
-          else if a.ends_with("<-map-get") || b.ends_with("<-map-get") { "via-map-access" }
-          else if a.starts_with("destructure") || b.starts_with("destructure") { "via-destructure" }
-          else if a.ends_with("<-var") || b.ends_with("<-var") { "via-define-from-variable" }
-          else if a.ends_with("<-var-idx") || b.ends_with("<-var-idx") { "via-index-access" }
-          else { "unrelated-names" };
-        return viol(class, via.to_string(), format!("{} (origins: {}={}, {}={})", exp_s, n, a, t0, b), obs_s);
+        let src_of = |x: &str| pre.get(x).and_then(|bd| bd.src.clone());
+        // which of the two was derived from the other (or are both derived from the same variable)?
+        let derived: Option<String> = if src_of(n).as_deref() == Some(t0.as_str()) { Some(a.clone()) }
+          else if src_of(&t0).as_deref() == Some(n.as_str()) { Some(b.clone()) }
+          else if src_of(n).is_some() && src_of(n) == src_of(&t0) { Some(if a.ends_with("<-var") { b.clone() } else { a.clone() }) }
+          else { None };
+        let via = match &derived {
+          Some(o) if o.ends_with("<-field") => "via-field-access",
+          Some(o) if o.ends_with("<-tuple-elem") => "via-tuple-element-access",
+          Some(o) if o.ends_with("<-map-get") => "via-map-access",
+          Some(o) if o.starts_with("destructure") => "via-destructure",
+          Some(o) if o.ends_with("<-var") => "via-define-from-variable",
+          Some(o) if o.ends_with("<-var-idx") => "via-index-access",
+          Some(_) => "via-other-derivation",
+          None => "unrelated-names",
+        };
+        let v = viol(class, via.to_string(), format!("{} (origins: {}={}, {}={})", exp_s, n, a, t0, b), obs_s.clone());
+        if derived.is_none() { return v; }
+        if explained.is_none() { explained = Some(v); }
       }
     }
   }
+  if let Some(v) = explained { return v; }
   for d in diffs {
     match d {
       Diff::Missing(_) | Diff::Extra(_) => return viol("name-set-wrong", String::new(), exp_s, obs_s),
